@@ -1,7 +1,6 @@
 package control
 
 func dnsScenarioC07(w *dnsWorld) {}
-func dnsScenarioC10(w *dnsWorld) {}
 func dnsScenarioC18(w *dnsWorld) {}
 
 func (w *dnsWorld) c07AfterOp(op *dnsOp) {}
